@@ -200,3 +200,9 @@ package state
 //@   option trusted
 //@   modifies nothing
 //@   havoc F|storage., MP|
+
+// The two directions of a derived session use the two different halves of the derived key material, each cipher
+// keyed with the half that is recorded as its key.
+//@ func EncryptionSession.initFinalize
+//@   requires s != nil
+//@   ensures directions-keyed-apart [C05,C04]: result == nil ==> s.inCipher != nil && s.outCipher != nil && aeadkey(s.inCipher) == base(s.inKey) && aeadkeyoff(s.inCipher) == off(s.inKey) && aeadkey(s.outCipher) == base(s.outKey) && aeadkeyoff(s.outCipher) == off(s.outKey) && len(s.inKey) == 32 && len(s.outKey) == 32 && base(s.inKey) == base(s.outKey) && off(s.inKey) != off(s.outKey)
